@@ -22,6 +22,7 @@ type RevSpec struct {
 	Shuffle     uint64 // file order of the objects of this revision
 	RepackOld   int    // >0: re-emit all live members of that (older) container and free it
 	SplitXRef   bool   // table: write subsections even for consecutive numbers in two pieces
+	NoHead      bool   // updates: do not rewrite the entry of object 0 when objects are freed
 }
 
 // Entry is the model's view of one object number after some revision.
@@ -41,6 +42,9 @@ type Built struct {
 	Model  []map[int]Entry // state after each revision
 	Root   Ref
 	Info   *Ref
+	// Offsets[rev][num] is the file offset of the body of object num as written by
+	// revision rev (plainly stored objects only).
+	Offsets []map[int]int
 }
 
 // Writer commits revisions one after another (append-only log).
@@ -63,6 +67,9 @@ type Writer struct {
 	// encoding) or "raw" (o = Str holding the encoded stream bytes). It returns
 	// the value to write. Fault injection only.
 	Hook func(kind string, num int, o Obj) Obj
+	// OffsetHook may replace the offset recorded in a cross-reference entry
+	// (fault injection: misdirected entries).
+	OffsetHook func(rev, num, off int) int
 	// PrevHook may replace the /Prev offset (fault injection: cyclic chains).
 	PrevHook func(rev, xrefOff, prev int) int
 }
@@ -211,6 +218,9 @@ func (w *Writer) Commit(rs RevSpec) []byte {
 	if len(freeNums) > 0 || w.revs == 0 {
 		// object 0 heads the list
 		chain := append([]int{0}, freeNums...)
+		if rs.NoHead && w.revs > 0 {
+			chain = freeNums // some writers leave the head of the free list alone
+		}
 		for i, f := range chain {
 			nextFree := 0
 			if i+1 < len(chain) {
@@ -224,6 +234,19 @@ func (w *Writer) Commit(rs RevSpec) []byte {
 			locs[f] = loc{0, nextFree, g}
 		}
 	}
+
+	offs := map[int]int{}
+	for _, num := range SortedNums(locs) {
+		l := locs[num]
+		if l.typ == 1 {
+			offs[num] = l.a
+			if w.OffsetHook != nil {
+				l.a = w.OffsetHook(w.revs, num, l.a)
+				locs[num] = l
+			}
+		}
+	}
+	w.out.Offsets = append(w.out.Offsets, offs)
 
 	// cross-reference section
 	xrefOff := w.buf.Len()
